@@ -596,12 +596,12 @@ def tracker_resolve_problem(ctx):
 ACTIONS = {"continue": ("enum", "Action::Continue", []), "stop": ("enum", "Action::Stop", []), "error": ("enum", "Action::Error", [("sym", "CONSUMER_ERROR")])}
 
 
-class PH(progx.InlineHooks):
+class PH(progx.OpHooks):
     """Parser::parse against a scripted consumer, header result and instruction stream"""
     NO_INLINE = ("parse_header", "parse_inst", "track")
 
     def __init__(self, ctx, script):
-        progx.InlineHooks.__init__(self, ctx)
+        progx.OpHooks.__init__(self, ctx)
         self.sc = script
         self.events = []
         self.ninst = 0
@@ -639,19 +639,21 @@ class PH(progx.InlineHooks):
                 self.ninst += 1
                 st = self.sc["stream"]
                 return st[k] if k < len(st) else ("err", ("sym", "READ-PAST-THE-END"))
-        return progx.InlineHooks.mcall(self, recv, m, args, e, ev)
+        return progx.OpHooks.mcall(self, recv, m, args, e, ev)
 
 
 def parse_scripts(extra=0):
     """extra: the largest small integer the parse loop compares / counts with; the streams then also reach extra + 1 instructions"""
-    I1, I2 = ("sym", "INST1"), ("sym", "INST2")
+    from . import walkx
+    # a type declaration, a function definition, then an instruction inside the function: all three must reach consumer and tracker
+    I1, I2, I3 = walkx.inst("INST1", "TypeInt"), walkx.inst("INST2", "Function"), walkx.inst("INST3", "IAdd")
     COMPLETE = ("err", ("enum", "State::Complete", []))
     PERR = ("err", ("enum", "State::OperandExpected", [("sym", "OFF"), ("sym", "IDX")]))
-    ok_stream = [("ok", I1), ("ok", I2), COMPLETE]
+    ok_stream = [("ok", I1), ("ok", I2), ("ok", I3), COMPLETE]
     base = {"header": ("ok", ("sym", "HEADER")), "stream": ok_stream}
     if extra >= 2:
         n = extra + 1
-        long_stream = [("ok", ("sym", "INST%d" % (i + 1))) for i in range(n)] + [COMPLETE]
+        long_stream = [("ok", walkx.inst("INST%d" % (i + 1), "IAdd")) for i in range(n)] + [COMPLETE]
         yield "%d instructions, all callbacks continue" % n, dict(base, stream=long_stream)
         for a in ("stop", "error"):
             yield "instruction %d of %d answered with %s" % (n, n, a), dict(base, stream=long_stream, **{"instruction%d" % n: a})
@@ -737,7 +739,8 @@ def parse_problems(ctx):
                         k = prev[-1]
                         item = sc["stream"][len(prev) - 1] if len(prev) - 1 < len(sc["stream"]) else None
                         if item and item[0] == "ok" and ("track", item[1]) not in evs[k:i]:
-                            pb.append("%s is not given to the type tracker before the next instruction is parsed" % item[1][1])
+                            pb.append("%s is not given to the type tracker before the next instruction is parsed" % (
+                                item[1][2].get("name") if isinstance(item[1], tuple) and item[1][0] == "struct" else item[1][1]))
             if [x for x in evs if x[0] == "parse_header"] != [("parse_header",)] * (1 if sc.get("initialize", "continue") == "continue" else 0):
                 pb.append("parse_header is called %d times" % len([x for x in evs if x[0] == "parse_header"]))
             out.append((inst, "; ".join(pb) or None, [x[0] for x in evs]))
